@@ -101,6 +101,21 @@ static void collections() {
   galois::GAccumulator<long> sum; long es = 0; for (long x : expect) es += x;
   galois::do_all(galois::iterate(bag), [&](long x) { sum += x; }, galois::steal(), galois::chunk_size<2>());
   if (sum.reduce() != es) vsim_fail("c15.collection", "do_all over InsertBag sums to %ld, expected %ld", sum.reduce(), es);
+  // the two-bag idiom of bulk-synchronous applications: the filled bag is swapped / moved into another one, further
+  // per-thread objects (reducers, a second loop) are created afterwards, and the contents must still be the same
+  {
+    int how = (int)wl_range(0, 2);
+    galois::InsertBag<long> cur;
+    if (how == 0) bag.swap(cur); else if (how == 1) cur.swap(bag); else { galois::InsertBag<long> tmp(std::move(bag)); cur.swap(tmp); }
+    galois::GAccumulator<long> s2; galois::GReduceMax<long> mx; galois::GAccumulator<size_t> cnt;
+    std::vector<galois::GAccumulator<long>> grow;   // growing a vector of reducers moves them
+    for (int i = 0; i < (int)wl_range(1, 5); i++) grow.emplace_back();
+    galois::do_all(galois::iterate(cur), [&](long x) { s2 += x; mx.update(x); cnt += 1; for (auto& g : grow) g += 1; }, galois::steal(), galois::chunk_size<2>());
+    cmp(how == 2 ? "InsertBag after move construction" : "InsertBag after swap", std::multiset<long>(cur.begin(), cur.end()));
+    if (s2.reduce() != es || cnt.reduce() != expect.size()) vsim_fail("c15.collection", "do_all over the swapped InsertBag: sum %ld count %zu, expected %ld / %zu", s2.reduce(), cnt.reduce(), es, expect.size());
+    for (auto& g : grow) if (g.reduce() != (long)expect.size()) vsim_fail("c15.reduce.moved", "a reducer that was moved while a vector grew reduces to %ld, expected %zu", g.reduce(), expect.size());
+    if (how != 2 && !bag.empty()) vsim_fail("c15.collection", "the other side of InsertBag::swap is not empty");
+  }
 }
 // ---- 4: DynamicBitSet ----
 static void bitset() {
@@ -192,6 +207,8 @@ int main() {
   static const char* sn[] = {"GAccumulator", "GReduceMax/Min", "logical+user+move-only", "collections", "DynamicBitSet", "atomic helpers", "UnionFind"};
   vsim_note("component", "scenario=%s", sn[scen]);
   vsim_enable_fault(VF_CAS_WEAK, 0.01, 0.3);
+  vsim_enable_fault(VF_PLAIN_PREEMPT, 0.02, 0.6);   // plain shared data of the library (behind locks, in shared helper state) becomes preemptible
+  vsim_plain_preempt_window(1);   // operators here keep no shared non-atomic bookkeeping of their own
   vsim_set_budget(4000000);
   galois::SharedMemSys G;
   int hw = (int)galois::substrate::getThreadPool().getMaxThreads();
